@@ -344,8 +344,16 @@ def e5d(ctx):
                 continue
             calls = [c for c in walk_no_nested(h.node) if isinstance(c, ast.Call) and isinstance(c.func, ast.Attribute)
                      and c.func.attr == "print" and "parent" in ast.unparse(c.func.value)]
-            safe = all(any(k.arg == "with_edits" and isinstance(k.value, ast.Constant) and k.value.value is False for k in c.keywords)
-                       or (len(c.args) >= 3 and isinstance(c.args[2], ast.Constant) and c.args[2].value is False) for c in calls)
+            kw_name = h.node.args.kwarg.arg if h.node.args.kwarg else None
+            presets = kw_name is not None and any(
+                (isinstance(a, ast.Assign) and isinstance(a.targets[0], ast.Subscript) and dotted(a.targets[0].value) == kw_name
+                 and isinstance(a.targets[0].slice, ast.Constant) and a.targets[0].slice.value == "with_edits"
+                 and isinstance(a.value, ast.Constant) and a.value.value is False)
+                or (isinstance(a, ast.Expr) and isinstance(a.value, ast.Call) and dotted(a.value.func) == f"{kw_name}.update"
+                    and any(k.arg == "with_edits" and isinstance(k.value, ast.Constant) and k.value.value is False for k in a.value.keywords))
+                for a in walk_no_nested(h.node))
+            safe = presets or all(any(k.arg == "with_edits" and isinstance(k.value, ast.Constant) and k.value.value is False for k in c.keywords)
+                                  or (len(c.args) >= 3 and isinstance(c.args[2], ast.Constant) and c.args[2].value is False) for c in calls)
             fwd[hname] = (h, calls, safe)
         if not fwd:
             continue
